@@ -417,22 +417,45 @@ func run(tb ev.TB, c xCase) (labels []string, nontrivial bool) {
 		if c.DeadlineMs > 0 {
 			limit += time.Duration(c.DeadlineMs) * time.Millisecond
 		}
-		select {
-		case <-done:
-		case <-time.After(limit):
+		// "Still not back" is decided by progress, not by the clock alone (the machine may be saturated): past the limit,
+		// three samples 5 s apart without a single further call returning.
+		started := time.Now()
+		last, still := -1, 0
+	watch:
+		for {
+			select {
+			case <-done:
+				break watch
+			case <-time.After(5 * time.Second):
+			}
 			mu.Lock()
 			returned := len(outs)
 			mu.Unlock()
+			if returned == last {
+				still++
+			} else {
+				still = 0
+			}
+			last = returned
+			stuck := time.Since(started) > limit && still >= 3
+			tooLong := time.Since(started) > 15*time.Minute
+			if !stuck && !tooLong {
+				continue
+			}
 			conn.Close()
 			select {
 			case <-done:
 			case <-time.After(10 * time.Second):
 			}
+			if !stuck {
+				ev.Inconclusive("hammer_slow_machine")
+				return
+			}
 			total := 0
 			for _, g := range c.Goroutines {
 				total += len(g)
 			}
-			ev.Fail(tb, "xtalk", "c06/conn/calls-never-returned", c, "%d of %d calls on the Conn had returned %v after the start (deadline %d ms): the others observed neither their response nor an error", returned, total, limit, c.DeadlineMs)
+			ev.Fail(tb, "xtalk", "c06/conn/calls-never-returned", c, "%d of %d calls on the Conn had returned %v after the start (deadline %d ms) and none of the others returned during the next 15 s: they observed neither their response nor an error", returned, total, time.Since(started).Round(time.Second), c.DeadlineMs)
 			return
 		}
 	} else {
